@@ -361,6 +361,27 @@ def install_async(w):
                waive=["call of a non-callable"], props={"C03", "C01"})
 
 
+def install_object_value_async(w):
+    """complete_object_value with an awaitable is_type_of answer: the coroutine takes the decision
+    the synchronous path takes - a falsy answer (False, None, 0, ...) is an invalid return type,
+    a truthy one executes the sub-selections."""
+    w.contract(f"{EX}.invalid_return_type_error",
+               params={"return_type": "dyn", "result": "dyn", "field_details_list": "dyn"},
+               returns="exc:GraphQLError", ensures=[], raises=[], modifies=[], assumed=True)
+    w.contract(f"{EX}.Executor.collect_and_execute_subfields",
+               params={"return_type": "dyn", "field_details_list": "dyn", "path": "dyn",
+                       "result": "dyn", "position_context": "dyn"},
+               returns="dyn", ensures=[], raises=["Exception"], modifies=[], assumed=True)
+    w.contract(f"{EX}.Executor.complete_object_value.<locals>.execute_subfields_async",
+               closure={"self": "obj:Executor", "is_type_of": "dyn", "return_type": "dyn",
+                        "result": "dyn", "field_details_list": "dyn", "path": "dyn",
+                        "position_context": "dyn"},
+               returns="dyn", ensures=[], raises=["Exception"], modifies=[], coroutine=True,
+               exit_post=["truthy(_awaited_1)"],
+               raise_post=["not truthy(_awaited_1)"],
+               waive=["call of a non-callable"], props={"C03"})
+
+
 def install_type_resolver(w):
     """default_type_resolver: the awaitable is_type_of results and the types they belong to are kept
     in two parallel lists; the coroutine that awaits them must pair result j with type j."""
@@ -394,4 +415,5 @@ _inst_prev6 = install
 def install(w):   # noqa: F811
     _inst_prev6(w)
     install_async(w)
+    install_object_value_async(w)
     install_type_resolver(w)
